@@ -146,6 +146,43 @@ def worker():
     json.dump(res, open(sys.argv[2], "w"), default=str)
 
 
+def pre_voltage_dependence():
+    """TanhRateSynapse between capacitor cells: the current is -gS tanh(v_pre - x_offset).  With the presynaptic cell saturated at
+    +20 / -20 mV above / below the offset the charge delivered to the postsynaptic cell flips its sign exactly, whatever the
+    postsynaptic voltage is; the presynaptic cell and a bystander keep their voltage."""
+    from harness.jaxsetup import jax, jnp, np, jx
+    from harness import probes
+    from jaxley.connect import connect
+    from jaxley.synapses import TanhRateSynapse
+    out = []
+
+    def run(pre, post, v, vs):
+        net = probes.build_net([[1], [1], [1]], [1, 1, 1])
+        connect(net.select(nodes=[pre]), net.select(nodes=[post]), TanhRateSynapse())
+        net.set("TanhRateSynapse_gS", 2e-3)
+        net.set("TanhRateSynapse_x_offset", 0.0)
+        net.set("v", np.asarray(v, dtype=float))
+        net.record("v", verbose=False)
+        return np.asarray(jx.integrate(net, delta_t=probes.DT, t_max=2 * probes.DT, voltage_solver=vs))
+
+    for vs in ("jaxley.thomas", "jax.sparse"):
+        for pre, post, other in ((0, 1, 2), (2, 0, 1), (1, 2, 0)):
+            for v_post in (5.0, -13.0):
+                v = [0.0, 0.0, 0.0]
+                v[post], v[other] = v_post, -7.0
+                v[pre] = 20.0
+                up = run(pre, post, v, vs)
+                v[pre] = -20.0
+                dn = run(pre, post, v, vs)
+                d_up, d_dn = up[post, -1] - v_post, dn[post, -1] - v_post
+                sig = {"voltage_solver": vs, "pre": pre, "post": post, "v_post": v_post, "delta_up": float(d_up), "delta_down": float(d_dn)}
+                if not (abs(d_up) > 1e-6 and abs(d_up + d_dn) <= 1e-9 * abs(d_up)):
+                    out.append({**sig, "what": "charge delivered does not follow the presynaptic voltage"})
+                if abs(up[pre, -1] - 20.0) > 1e-9 or abs(up[other, -1] + 7.0) > 1e-9:
+                    out.append({**sig, "what": "presynaptic or bystander compartment moved"})
+    return out
+
+
 def _report(chk, traces, reached, crashed, seeds):
     nev = 0
     for t, tr in enumerate(traces, start=1):
@@ -254,6 +291,10 @@ def main(which):
     ntraces = nevents = 0
     if which == "C09":
         ntraces, nevents = trace_validation(chk, model, quick, sd)
+        # "each synapse reads the voltage of exactly its presynaptic compartment", instantiated on the built-in synapse whose
+        # CURRENT (not only its state) depends on the presynaptic voltage (the probe synapses reach the current through a state)
+        for bad in pre_voltage_dependence():
+            chk.violation({"kind": "pre_voltage_dependent_current", "what": bad["what"], "voltage_solver": bad["voltage_solver"]}, bad)
     prev = None
     evp = os.path.join(C.EVID, which + ".json")
     if which in ("C08", "C10") and os.environ.get("VERIF_MERGE_EVIDENCE") == "1" and os.path.exists(evp):
